@@ -108,7 +108,8 @@ def make_list(fmt, kind, pos):
 OPTIONS = {
     'ds9': [{}, {'precision': 3}, {'precision': 'x'}, {'precision': -1}, {'bogus': 1}],
     'crtf': [{}, {'coordsys': 'galactic', 'fmt': '.3f', 'radunit': 'arcsec'}, {'radunit': 'furlong'}, {'coordsys': 'nope'}, {'fmt': 'q'}, {'bogus': 1}],
-    'fits': [{}, {'header': {'EXTNAME': 'REGION', 'ORIGIN': 'me'}}, {'bogus': 1}],
+    'fits': [{}, {'header': {'EXTNAME': 'REGION', 'ORIGIN': 'me'}}, {'bogus': 1}, {'header': 'not a header'}, {'header': 5},
+             {'header': {'EXTNAME': 'REGION', 'A KEY THAT IS FAR TOO LONG': object()}}],
 }
 
 
